@@ -17,5 +17,6 @@ MC_Msgs == {[k \in 1..70 |-> k]}
 MC_MaxExtra == 1
 MC_ListOrders == {"asc","desc"}
 MC_EMIT == TRUE
+MC_BatchAtEnd == FALSE
 
 ====
